@@ -466,6 +466,6 @@ def extract_grammar(
     g = Grammar(starting_symbol, considered_subtypes, expansion_depthing)
     g.register_type(starting_symbol)
     g.preprocess()
-    if any(["weight" in get_gengy(p) for p in g.all_nodes]):
+    if any(["weight" in get_gengy(p) for p in [*considered_subtypes, *g.all_nodes]]):
         g.update_weights(1, g.get_weights())
     return g
